@@ -43,7 +43,7 @@ PROPS["C01"] = _hist(
     lambda f: f["pages"] >= 8 and 0 < f["crawled"] < f["pages"],
     ["C01_pages_compared", "reports_checked"],
     ["LRUTrie.add_page", "LRUTrie.add_lru", "LRUTrie.pages_iter", "LRUTrie.count_pages", "LRUTrie.count_crawled_pages"],
-    Q(640), T(2400, exhaustive_shapes=5, soak=3000),
+    Q(640, sorted_chain=1100), T(2400, exhaustive_shapes=5, soak=3000, sorted_chain=1500),
 )
 
 PROPS["C02"] = _hist(
@@ -58,7 +58,7 @@ PROPS["C02"] = _hist(
     lambda f: f["nodes"] >= 10,
     ["C02_lookups", "C02_absent_probes", "decodes"],
     ["LRUTrie.lru_node", "LRUTrie.windup_lru", "LRUTrie.dfs_iter", "LRUTrieNode.read", "detailed_chunks_iter"],
-    Q(480, exhaustive_shapes=4), T(2400, exhaustive_shapes=6),
+    Q(480, exhaustive_shapes=4, sorted_chain=1100), T(2400, exhaustive_shapes=6, sorted_chain=1500),
 )
 
 PROPS["C03"] = _hist(
@@ -211,7 +211,7 @@ def _paging(prop, profile, rule, nontrivial, deciding, anchors, quick, thorough)
 
 PROPS["C09"] = _paging(
     "C09",
-    dict(classes=("real", "real", "deep", "bin"), pool=(12, 24, 40), rule_prob=0.5, insert_prob=0.5,
+    dict(classes=("real", "real", "deep", "bin", "long"), long=True, pool=(12, 24, 40), rule_prob=0.5, insert_prob=0.5,
          weights={"add_page": 9, "add_pages": 2, "add_links": 2, "batch": 1, "create": 3, "addp": 3, "delete": 1, "rmp": 1, "mvp": 1, "rule": 1}),
     "random states (webentities with 1-4 prefixes incl. prefixes without pages, nested foreign prefixes, prefixes that are pages) "
     "paged through with k in {1,2,3,7,n-1,n,n+1} (every k for the exhaustive sibling shapes), normal and crawled-only, feeding "
@@ -230,7 +230,7 @@ PROPS["C09"] = _paging(
 
 PROPS["C10"] = _paging(
     "C10",
-    dict(classes=("real", "real", "deep"), pool=(8, 14, 24), rule_prob=0.4,
+    dict(classes=("real", "real", "deep", "bin", "long"), long=True, pool=(8, 14, 24), rule_prob=0.4,
          weights={"add_page": 6, "add_pages": 1, "add_links": 7, "batch": 4, "create": 3, "addp": 3, "delete": 1, "rmp": 1, "mvp": 1, "rule": 1}),
     "random states with link-less pages and whole prefixes without link-bearing pages between link-bearing ones; every webentity "
     "(prefixes shuffled) x 3 switch settings x source counts {1,2,3,n,n+1} (every count for exhaustive shapes) is paged through "
